@@ -475,10 +475,15 @@ pub fn subs() -> Vec<Box<dyn DynSub>> {
 
 pub fn run_for(ctx: &Ctx, pid: &'static str, subs: &[DefaultTimeRules]) {
   let mut jobs: Vec<Job> = vec![];
+  let child = ctx.is_clock_child();
   // four parsers live through the instant of their token's claim (each case sleeps ~3.5 s; they run side by side)
   let crossing: &'static ClockCrossing = Box::leak(Box::new(ClockCrossing { pid }));
-  for case in crossing_cases() {
-    jobs.push(Box::new(move || ctx.enumerate(crossing, std::iter::once(case), false)));
+  if !child {
+    for case in crossing_cases() {
+      jobs.push(Box::new(move || ctx.enumerate(crossing, std::iter::once(case), false)));
+    }
+    // the same rules with the wall clock SET to calendar boundaries (child processes under tools/fakeclock.c)
+    jobs.push(Box::new(move || ctx.clock_children(&crate::tgen::special_clocks(ctx.quick()))));
   }
   for s in subs {
     if s.proto == Proto::V4L || s.proto == Proto::V2P {
@@ -491,6 +496,7 @@ pub fn run_for(ctx: &Ctx, pid: &'static str, subs: &[DefaultTimeRules]) {
       Proto::V1P => ctx.n(1000, 10_000),
       _ => ctx.n(300, 3_000),
     };
+    let n = if child { (n / 10).max(100) } else { n };
     jobs.push(Box::new(move || ctx.prop(s, case(pid, s.proto), n)));
   }
   run_jobs(jobs);
